@@ -110,7 +110,7 @@ Proof.
   intros I R H. destruct l; unfold step in H.
   - (* LAdd *)
     destruct (hlock s); [discriminate|]. cbv zeta in H.
-    assert (R1 : RInv (set_h s (nexth s) (h0 <| h_pub := pub |> <| h_hon := hon |> <| h_inmap := true |>)
+    assert (R1 : RInv (set_h s (nexth s) (h0 <| h_pub := pub |> <| h_hon := hon |> <| h_sub := sub |> <| h_inmap := true |>)
                          <| nexth := S (nexth s) |> <| hwg := S (hwg s) |> <| maplen := S (maplen s) |>)).
     { destruct R as [A B C]. constructor; simpl.
       - intros h X Y. updt (nexth s) h; [discriminate|]. destruct (A h X Y); auto.
@@ -186,14 +186,24 @@ Proof.
       injection H as <- <-. eapply rinv_upd; [exact R|reflexivity|reflexivity|reflexivity|gmono|]. destruct R as [A B C].
       unfold okupd; simpl; repeat split; auto.
   - (* LHC *)
-    destruct (h_hc (hs s h)) eqn:EH; try discriminate H. destruct closing.
+    destruct (h_hc (hs s h)) eqn:EH; try discriminate H.
+    assert (RC : closingCh s = true -> RInv (close_sub s h)).
+    { intros CC. assert (G : glob s = true) by (unfold glob; rewrite CC, ?orb_true_r; reflexivity).
+      destruct R as [A B C]. constructor; unfold close_sub; simpl.
+      - intros; right; exact G.
+      - intros; right; exact G.
+      - intros; left; exact G. }
+    destruct closing.
     + destruct (closingCh s) eqn:CC; [|discriminate]. injection H as <- <-.
-      eapply rinv_upd; [exact R|reflexivity|reflexivity|reflexivity|gmono|].
-      unfold okupd, glob; simpl; rewrite CC, ?orb_true_r; repeat split; auto.
-    + destruct (hctx_done s h) eqn:HD; [|discriminate]. injection H as <- <-.
+      eapply rinv_upd; [exact (RC eq_refl)|reflexivity|reflexivity|reflexivity|gmono|].
+      unfold okupd, glob, close_sub; simpl; rewrite CC, ?orb_true_r; repeat split; auto.
+    + destruct (hctx_done s h) eqn:HD; [|discriminate].
       pose proof (hctx_reason s h R HD) as HR.
-      eapply rinv_upd; [exact R|reflexivity|reflexivity|reflexivity|gmono|].
-      destruct R as [A B C]. destruct (closingCh s); unfold okupd; simpl; repeat split; auto.
+      destruct (closingCh s) eqn:CC; injection H as <- <-.
+      * eapply rinv_upd; [exact (RC eq_refl)|reflexivity|reflexivity|reflexivity|gmono|].
+        unfold okupd, glob, close_sub; simpl; rewrite CC, ?orb_true_r; repeat split; auto.
+      * eapply rinv_upd; [exact R|reflexivity|reflexivity|reflexivity|gmono|].
+        destruct R as [A B C]. unfold okupd; simpl; repeat split; auto.
 Qed.
 
 Theorem run_rinv ls : forall s, SInv s -> RInv s -> SInv (run s ls) /\ RInv (run s ls).
